@@ -55,6 +55,6 @@ class Timer:
             # restarted from the timer's own callback: run() re-reads
             # expire_time and keeps sleeping until the new expiry
             return
-        if not self.proc.processed:
+        if self.proc.is_alive:
             self.proc.interrupt("restart timer")
-            self.proc = self.env.process(self.run(self.env))
+        self.proc = self.env.process(self.run(self.env))
